@@ -107,6 +107,10 @@ func main() {
 		stmtsMode()
 		return
 	}
+	if len(os.Args) > 1 && os.Args[1] == "authcache" {
+		authcacheMode()
+		return
+	}
 	enc := json.NewEncoder(os.Stdout)
 	for _, lk := range []bool{false, true} {
 		for _, flux := range []bool{false, true} {
